@@ -62,6 +62,29 @@ pub fn set_sched_slow_point(point: Option<(&'static str, u32)>) {
     });
 }
 
+thread_local! {
+    static PEER_ORDER: std::cell::Cell<u8> = const { std::cell::Cell::new(0) };
+}
+
+/// Decide the order of peer lists that the library takes from a hash map (whose iteration order is
+/// random per process): 0 = leave as is, 1 = ascending, 2 = descending (current thread).
+pub fn set_peer_order(mode: u8) {
+    PEER_ORDER.with(|c| c.set(mode));
+}
+
+/// Apply the order chosen with `set_peer_order` to a list taken from a hash map.
+pub fn ordered<T: Ord>(mut v: Vec<T>) -> Vec<T> {
+    match PEER_ORDER.with(|c| c.get()) {
+        1 => v.sort(),
+        2 => {
+            v.sort();
+            v.reverse();
+        }
+        _ => {}
+    }
+    v
+}
+
 /// Override the number of log entries after which the write-ahead log rotates (current thread).
 pub fn set_wal_rotation_entries(n: Option<u64>) {
     WAL_ROTATION_ENTRIES.with(|c| *c.borrow_mut() = n);
